@@ -73,6 +73,10 @@ struct Scenario {
     fault: Fault,
     password: Option<(String, bool)>,
     split_idle: bool,      // only in scenarios without requests (see C04.cancel_safe, a known finding)
+    /// transport that holds only a few bytes, and a server that is busy (does not read) for this long after answering a request: the client's
+    /// next write stalls in the middle of a line (a write that is abandoned half-way shows up as a torn request line)
+    small_pipe: bool,
+    busy_ms: u64,
 }
 
 fn gen_scenario(seed: u64) -> Scenario {
@@ -114,8 +118,12 @@ fn gen_scenario(seed: u64) -> Scenario {
         let pw = r.pick(&["secret", "two words", "Joe's", "a\\b", "", "pass\"word", "tab\there", "caf\u{e9}"]);
         Some((pw.to_string(), r.below(4) == 0))
     } else { None };
-    Scenario { callers, notifs, reply_delay: (0..8).map(|_| r.pick(&[0u64, 0, 1, 20, 99, 100, 130])).collect(), chunk: r.pick(&[0usize, 0, 1, 2, 3, 7]),
-               chunk_sleep: r.below(2) == 0, fault, password, split_idle: events_only && r.below(2) == 0 }
+    let reply_delay = (0..8).map(|_| r.pick(&[0u64, 0, 1, 20, 99, 100, 130])).collect(); let chunk = r.pick(&[0usize, 0, 1, 2, 3, 7]);
+    let chunk_sleep = r.below(2) == 0; let split_idle = events_only && r.below(2) == 0;
+    // drawn last, so that every earlier field of a scenario is what it was before these two were added
+    let stall = r.below(6) == 0;
+    let busy_ms = if stall { r.pick(&[30u64, 150, 400]) } else { 0 };
+    Scenario { callers, notifs, reply_delay, chunk, chunk_sleep, fault, password, split_idle, small_pipe: stall, busy_ms }
 }
 
 #[derive(Default)]
@@ -128,6 +136,8 @@ struct Shared {
     event_cut: bool,
     server_lines: Vec<String>,
     requests_seen: Vec<String>,
+    /// the command names the callers handed to the client
+    issued: std::collections::HashSet<String>,
     idling: bool,
     closed_by_server: bool,
     /// the stream was cut inside a reply / garbage was sent (a failure that is not a clean close)
@@ -299,6 +309,7 @@ async fn server(mut s: Server) {
             n_replies += 1;
             tr(&sh, t0, format!("server -> reply {:?}", String::from_utf8_lossy(&data)));
             if !s.put_reply(&data, false).await { return; }
+            if s.sc.busy_ms > 0 { sleep(Duration::from_millis(s.sc.busy_ms)).await; }
         } }
         while let Some((ms, _)) = notifs.last() {
             if now < t0 + Duration::from_millis(*ms) { break; }
@@ -360,6 +371,7 @@ async fn caller(ci: usize, steps: Vec<Step>, client: Client, sh: Sh, t0: Instant
             if fail_at == Some(k) { c.argument(if partial { "pfail" } else { "fail" }) }
             else if matches!(st.op, Op::Single { bin: true, .. }) { c.argument("bin") } else { c }
         };
+        { let mut g = sh.lock().unwrap(); for n in &names { g.issued.insert(n.clone()); } }
         tr(&sh, t0, format!("caller {ci} issues {names:?}"));
         let fut = async {
             if single { client.raw_command(mk(0)).await.map(|f| vec![f]) }
@@ -403,7 +415,7 @@ async fn scenario(seed: u64) -> (Vec<(String, String)>, Vec<String>) {
     let t0 = Instant::now();
     let sh: Sh = Arc::new(Mutex::new(Shared::default()));
     tr(&sh, t0, format!("scenario {sc:?}"));
-    let (cio, sio) = tokio::io::duplex(1 << 16);
+    let (cio, sio) = tokio::io::duplex(if sc.small_pipe { 3 } else { 1 << 16 });
     let faulty = !matches!(sc.fault, Fault::None);
     let srv = tokio::spawn(server(Server { io: Some(sio), sc: sc.clone(), sh: sh.clone(), t0, cut_left: if let Fault::CutAfter(n) = sc.fault { Some(n + 14) } else { None } }));
     let conn = match &sc.password {
@@ -469,6 +481,16 @@ async fn scenario(seed: u64) -> (Vec<(String, String)>, Vec<String>) {
     // C04 / C08 on the event log
     let got = got_events.lock().unwrap().clone();
     let (sent, caller_errs, seen) = { let g = sh.lock().unwrap(); (g.events_sent.clone(), g.protocol_errs > 0, g.requests_seen.clone()) };
+    // C05: every request line the server received is one a caller issued (a write abandoned half-way and continued by the next write shows
+    // up as a merged / torn line such as `qabidle`), apart from the client's own album-art requests
+    {
+        let issued = sh.lock().unwrap().issued.clone();
+        for n in &seen {
+            if !issued.contains(n) && n != "albumart" && n != "readpicture" && !sh.lock().unwrap().unclean {
+                viol(&sh, "C05", format!("the server received the request line {n:?}, which no caller issued (torn or merged write)"));
+            }
+        }
+    }
     // C01: the requests of one caller reach the server in issue order
     for ci in 0..sc.callers.len() {
         let pre = format!("q{}", letters(ci));
